@@ -243,6 +243,11 @@ int main(int argc, char** argv) {
                 s.Ham = new IndexHamiltonian(s.L, *s.Idx);
                 s.Ham->prepare();
                 out << "o poly " << polyStr(*s.Ham) << "\n";
+            } else if (cmd == "hshift") {
+                // constant energy offset added to the symbolic Hamiltonian (Operator::operator+=(MelemType))
+                MelemType v = readVal(is);
+                *s.Ham += v;
+                out << "o poly " << polyStr(*s.Ham) << "\n";
             } else if (cmd == "symm") {
                 std::string mode; is >> mode;
                 s.Symm = new Symmetrizer(*s.Idx, *s.Ham);
